@@ -59,6 +59,7 @@ class Contract:
         self.recursive_ok = True
         self.normal_cases = None
         self.verify_body = True
+        self.predicate_ = None      # (ghost predicate name, [param names]): "this call returns normally"
 
     # fluent API ---------------------------------------------------------------------------------------------
     def params(self, **kw):
@@ -133,6 +134,12 @@ class Contract:
 
     def assume(self, *names):
         self.assumes.extend(names)
+        return self
+
+    def predicate(self, name, args):
+        """names the ghost predicate 'this function returns normally on these arguments' (definitional: assumed at
+        call sites on the normal / negated on the raising outcome; the function must be deterministic)"""
+        self.predicate_ = (name, list(args))
         return self
 
     def trust(self, reason):
